@@ -27,6 +27,8 @@ CONSTANTS
   FocusOwners = {"model","observation"}
   CompOwners = {"model","observation"}
   MaxCompiles = 2
+  ModeWeight = 3
+  AgainWeight = 12
   Depth = 12
   Export = TRUE
   Defaults = "from_settings"
